@@ -44,7 +44,7 @@ class AbstractQName(AnyAtomicType):
         if namespaces is None:
             namespaces = parser.namespaces if parser is not None else {}
 
-        value = value.strip()
+        value = value.strip(' \t\n\r')
         if ':' not in value:
             return cls(namespaces.get(''), value)
         else:
@@ -72,7 +72,7 @@ class AbstractQName(AnyAtomicType):
 
         if not isinstance(qname, str):
             raise TypeError('the 2nd argument has an invalid type %r' % type(qname))
-        self.qname = qname.strip()
+        self.qname = qname.strip(' \t\n\r')
 
         match = self.pattern.match(self.qname)
         if match is None:
